@@ -349,4 +349,44 @@ example : matchOrder ⟨true, true, true, 1/4, .priceRatio 0⟩ ⟨false, 1, 0, 
     (fun _ _ => 5) (fun _ => 0) = .fill 100 10 0 true := by
   decide +kernel
 
+
+/-! ### signal mode (`SignalBroker`) -/
+
+/-- signal mode with `price_limit`: a BUY whose deal price (own limit price / last price) is at or above limit-up is rejected -/
+theorem signal_buy_at_limit_up_rejected (slip : Slip) (o : Ord) (b : MBar) (ct : Int → Int) (last u : R)
+    (hv : validPrice b.deal = some last) (hu : b.limitUp = some u) (hb : o.isBuy = true)
+    (hat : signalDeal o last ≥ u) :
+    signalMatch true slip o b ct = .rejected := by
+  unfold signalMatch
+  rw [hv]
+  have : signalAtLimit o b (signalDeal o last) = true := by
+    unfold signalAtLimit
+    rw [hu, hb]
+    simpa using hat
+  simp [this]
+
+/-- … and a SELL at or below limit-down -/
+theorem signal_sell_at_limit_down_rejected (slip : Slip) (o : Ord) (b : MBar) (ct : Int → Int) (last d : R)
+    (hv : validPrice b.deal = some last) (hd : b.limitDown = some d) (hb : o.isBuy = false)
+    (hat : signalDeal o last ≤ d) :
+    signalMatch true slip o b ct = .rejected := by
+  unfold signalMatch
+  rw [hv]
+  have : signalAtLimit o b (signalDeal o last) = true := by
+    unfold signalAtLimit
+    rw [hd, hb]
+    simpa using hat
+  simp [this]
+
+/-- without `price_limit` the limits do not stop a signal-mode order -/
+theorem signal_no_price_limit_ignores_band (slip : Slip) (o : Ord) (b : MBar) (ct : Int → Int) (last : R)
+    (hv : validPrice b.deal = some last) :
+    signalMatch false slip o b ct = .raises ∨ ∃ p, signalMatch false slip o b ct = .fill o.qty p (ct o.qty) false := by
+  unfold signalMatch
+  rw [hv]
+  simp only [Bool.false_and, Bool.false_eq_true, if_false]
+  cases hs : slipPrice slip o.isBuy o.isLimit o.limitPrice b (signalDeal o last) with
+  | none => exact Or.inl rfl
+  | some price => exact Or.inr ⟨price, rfl⟩
+
 end RQ.Props.C06
